@@ -115,10 +115,10 @@ def rule_p_rem(ctx):
         bp = body.op_path(bucket_op)
         ok = None
         if bp is not None:
-            d = body.unique_def(bp.root)
-            if d is not None and d[1] == "call":
-                y = ctx.call_at(body, d[0].bb)
-                if y.tname == HBI + "next" and ctx.role(body, y.arg_path(0)) == CURSOR and body.dominates(y.loc, c.loc) \
+            from rules_typestate import cursor_yield_of
+            y = cursor_yield_of(ctx, body, bucket_op)
+            if y is not None:
+                if body.dominates(y.loc, c.loc) \
                         and [e[0] for e in bp.elems if e[0] != "ref"][:2] == ["downcast", "field"]:
                     bad = [(x, disturbing(ctx, body, x)) for x in between_blocks(body, y.loc.bb, c.loc.bb)]
                     bad = [(x, r) for x, r in bad if r]
@@ -163,7 +163,10 @@ def rule_p_rem(ctx):
                        % (c.tname, body.path, " ".join(why_not), " ".join(inside)))
                 continue
         R.inst(fn=body.path, site=c.where(), rem=c.tname, **ok)
-    R.floor(5, "old-table removal sites")
+    R.floor(3, "old-table removal sites")
+    modes = {i.get("mode") for i in R.instances}
+    if "yielded-by-cursor" not in modes and not R.violations:
+        R.anchor("mover-removal", "no removal of a cursor-yielded bucket found (where do elements leave the old table?)")
     return R
 
 
@@ -296,7 +299,7 @@ def rule_p_only(ctx):
                 R.viol("%s:assign:OLD" % b.path, b.where(loc), "the old table is overwritten in place")
             if ctx.roles.is_cursor_place(p2) and st["place"]["proj"] and (loc.bb, loc.i) not in rebuilds:
                 R.viol("%s:assign:CURSOR" % b.path, b.where(loc), "the cached cursor is overwritten with something other than OLD.iter() of the same old table")
-    R.floor(8, "operations on OLD/CURSOR")
+    R.floor(4, "operations on OLD/CURSOR")
     return R
 
 
@@ -456,5 +459,5 @@ def rule_p_zst(ctx):
             R.inst(fn=b.path, site=c.where(), verdict="VIOLATION")
             R.viol(key, c.where(), "%s panics for zero-sized T (ptr::offset_from asserts size_of::<T>() > 0) and this site is reachable "
                    "with a zero-sized element type: it is not guarded by size_of::<T>() != 0, and %s" % (c.tname, "; ".join(shape2_why)))
-    R.floor(3, "reflect_* call sites")
+    R.floor(1, "reflect_* call sites")
     return R
